@@ -76,6 +76,18 @@ def body_store_fault(c0, c1, target, body, k):
     if kind != "vdir":
         ok = ok and f["ctag1"] == f["ctag0"] and f["ctag_restart"] == f["ctag0"]
     ok = ok and f["other_same"]
+    if ok and kind == "tree":
+        # non-bare collection: the working-tree files are part of what later requests act on (DELETE compares and
+        # unlinks the file): after the refused request they still agree with what the collection serves
+        w = Wm.CUR
+        disk = {n: w.files.get(_store.PATH + "/" + n) for n in w.listdir(_store.PATH) if n != ".git"}
+        served = {n: d for n, (e, d) in f["obs_restart"].items()}
+        if disk != served:
+            differing = {n for n in set(disk) | set(served) if disk.get(n) != served.get(n)}
+            # known finding (narrow): only the TARGET's working file is out of step, after an injected fault
+            if ctx.kf("C01-tree-fault-worktree") and differing == {f["name"]}:
+                return (True, "known")
+            return (False, "fault:" + f["faulted"] + ":worktree")
     return (ok, "fault:" + f["faulted"])
 
 
